@@ -388,6 +388,8 @@ pub fn text(c: &Case) -> String {
         "contained" => body += &format!("P ::= {}\nA ::= {}", base(&all), base("(P)")),
         // the contained subtype is itself a constrained reference
         "contained-via-reference" => body += &format!("Q ::= {}\nP ::= Q {}\nA ::= {}", base(""), all, base("(P)")),
+        // extension marker after the contained subtype
+        "contained-ext" => body += &format!("P ::= {}\nA ::= {}", base(&all), base("(P, ...)")),
         "contained-includes" => body += &format!("P ::= {}\nA ::= {}", base(&all), base("(INCLUDES P)")),
         "contained-component" => body += &format!("P ::= {}\nS ::= SEQUENCE {{ f {} }}", base(&all), base("(P)")),
         "parent" => {
@@ -649,7 +651,7 @@ impl Prop for C04 {
         }
         // contained subtypes: the expression sits on a referenced type (non-extensible expressions)
         for e in e1.iter().chain(e2.iter()) {
-            for ctx in ["contained", "contained-includes", "contained-component", "contained-via-reference"] {
+            for ctx in ["contained", "contained-includes", "contained-component", "contained-via-reference", "contained-ext"] {
                 out.push(mk(vec![e.clone()], "INTEGER", ctx, false, false));
             }
         }
@@ -767,7 +769,7 @@ impl Prop for C04 {
         };
         let eff_right = fold(&|s| s.eff_right);
         let eff_right_strict = fold(&|s| s.eff_right_strict);
-        let want_ext = c.cons.iter().any(|e| e.ext);
+        let want_ext = c.cons.iter().any(|e| e.ext) || c.ctx == "contained-ext";
         let src = text(c);
         let o = compile1(&src);
         let sh = shape(c);
